@@ -2,6 +2,7 @@ package vharness
 
 import (
 	"fmt"
+	"strings"
 
 	"github.com/goptics/varmq/internal/vrt"
 )
@@ -207,4 +208,117 @@ func init() {
 		}
 	}
 	_ = vrt.Quiesce
+}
+
+// Scenario families added after the fifth round of seeded changes.
+func init() {
+	// ---- restart-add-idle: a Restart (directly, or after Stop) of an idle worker racing a submission: the job must run
+	// with no further call (C01, C03, C14)
+	for _, viaStop := range []bool{false, true} {
+		for _, kp := range []kindPair{{Plain, Fifo}, {ResW, Prio}} {
+			kp, viaStop := kp, viaStop
+			nm := name("restart-add-idle/%s", kp)
+			if viaStop {
+				nm += "/stopped"
+			}
+			Register(&Scenario{
+				Name:  nm,
+				Props: []string{"C01", "C03", "C14", "C09"},
+				Mode:  "NB", Quick: 2, Thorough: 3, Shards: 8,
+				Body: func(h *H) {
+					w := h.NewWorker(kp.W, 2)
+					q := w.Bind(kp.Q, nil)
+					q2 := w.Bind(Fifo, nil) // (a second queue widens the window in which start() samples the lengths)
+					_ = q2
+					if viaStop {
+						w.Stop()
+					}
+					go func() { w.Restart() }()
+					go func() { q.Add(0, AddOpt{}) }()
+					h.End()
+				},
+			})
+		}
+	}
+
+	// ---- errs-paused: a job that fails or panics after a lifecycle call switched the status is still offered on Errs()
+	// (C07: "a panic ... is offered on the error channel"); the buffer is free and nothing else fails
+	for _, kp := range []kindPair{{Plain, Fifo}, {ErrW, Fifo}, {ResW, Prio}} {
+		for _, op := range []string{"Pause", "PauseAndWait", "Stop"} {
+			kp, op := kp, op
+			Register(&Scenario{
+				Name:  name("errs-paused/%s/%s", op, kp),
+				Props: []string{"C07", "C06"},
+				Mode:  "NB", Quick: 1, Thorough: 2, Shards: 2,
+				Body: func(h *H) {
+					h.Shape = Gated
+					h.CrashProp = "C07"
+					h.Beh[0] = BPanic
+					if kp.W != Plain {
+						h.Beh[0] = BErr
+					}
+					w := h.NewWorker(kp.W, 1)
+					q := w.Bind(kp.Q, nil)
+					q.Add(0, AddOpt{})
+					h.Quiesce(false)
+					errs := w.Wk.Errs() // (Stop replaces the channel: the offer goes to the one of this run)
+					switch op {
+					case "Pause":
+						w.Pause()
+					case "PauseAndWait":
+						go func() { w.PauseAndWait() }()
+					default:
+						go func() { w.Stop() }()
+					}
+					h.Quiesce(false)
+					h.Open(0)
+					h.Quiesce(true)
+					select {
+					case e, ok := <-errs:
+						want := "err0"
+						if kp.W == Plain {
+							want = panicText(0)
+						}
+						if !ok || e == nil || !strings.Contains(e.Error(), want) {
+							h.viol("C07", "C07.errs", "the error channel carries "+errStr(e)+" instead of the error of the job that failed after the worker left the running state")
+						}
+					default:
+						h.viol("C07", "C07.errs", "a job that failed after "+op+" had switched the worker's status was not offered on the error channel")
+					}
+					h.NoRest = true
+					if op != "Stop" {
+						w.Resume()
+					}
+					h.End()
+				},
+			})
+		}
+	}
+
+	// ---- batch-purge-race: Purge racing the AddAll itself (an item between its Enqueue and its status change):
+	// the batch still completes, every item ran once or was cancelled (C08, C10, C05)
+	for _, kp := range memKinds() {
+		kp := kp
+		Register(&Scenario{
+			Name:  name("batch-purge-race/%s", kp),
+			Props: []string{"C08", "C10", "C05", "C16"},
+			Mode:  "NB", Quick: 2, Thorough: 3, Shards: 8,
+			Body: func(h *H) {
+				h.CrashProp = "C08"
+				h.HangProp = "C08"
+				w := h.NewWorker(kp.W, 1)
+				q := w.Bind(kp.Q, nil)
+				w.Pause()
+				go func() { q.Purge() }()
+				b := q.AddAll([]int{0, 1}, nil)
+				if b.Results != nil || b.Errs != nil {
+					go func() { h.ReadStream(b) }()
+				}
+				go func() { h.BatchWait(b) }()
+				h.Quiesce(true)
+				w.Resume()
+				h.End()
+			},
+		})
+	}
 }
